@@ -371,5 +371,140 @@ class ReleaseFallThrough(Stream):
             yield dict(case, links={k: v for k, v in case["links"].items() if k != n})
 
 
+class CliLocationOrder(Stream):
+    """the order in which compile_main hands the repository locations to build_repo: command line first, then what the
+    requirements files declare, each in listed order, repeated mentions dropped (first one stays)"""
+    name = "cli-location-order"
+    quick_n = 250
+    thorough_n = 12000
+    batch = 50
+
+    LOCS = {"find": ["zeta", "alpha", "common", "m/wheels", "../shared"], "index": ["https://z.example/simple", "https://a.example/simple"],
+            "extra": ["https://y.example/simple", "https://b.example/simple", "https://k.example/simple"]}
+    FLAG = {"find": "--find-links", "index": "--index-url", "extra": "--extra-index-url"}
+
+    def setup(self):
+        self.tmp = tempfile.mkdtemp(prefix="rvc04o")
+
+    def teardown(self):
+        shutil.rmtree(getattr(self, "tmp", ""), ignore_errors=True)
+
+    def generate(self, rng):
+        def pick(kind, k):
+            return [rng.choice(self.LOCS[kind]) for _ in range(k)]
+        cmd = {"find": pick("find", rng.randint(0, 3)), "index": pick("index", rng.choice([0, 0, 1])), "extra": pick("extra", rng.randint(0, 2))}
+        files = []
+        for _ in range(rng.choice([1, 1, 2])):
+            lines = []
+            for _ in range(rng.randint(0, 4)):
+                kind = rng.choice(["find", "find", "extra", "index"])
+                lines.append([kind, rng.choice(self.LOCS[kind])])
+            files.append(lines)
+        return {"cmd": cmd, "files": files}
+
+    def impl(self, case):
+        import contextlib
+        import io
+        from rv.core import digest
+        import req_compile.cmdline as C
+        d = os.path.join(self.tmp, digest(case))
+        os.makedirs(d, exist_ok=True)
+        args = []
+        for i, lines in enumerate(case["files"]):
+            fn = os.path.join(d, "r%d.txt" % i)
+            with open(fn, "w") as f:
+                for kind, v in lines:
+                    f.write("%s %s\n" % (self.FLAG[kind], v))
+                f.write("foo\n")
+            args.append(fn)
+        for kind in ("find", "index", "extra"):
+            for v in case["cmd"][kind]:
+                args += [self.FLAG[kind], v]
+        captured = {}
+
+        class Stop(Exception):
+            pass
+
+        def fake_build_repo(solutions, upgrade_packages, sources, excluded_sources, find_links, index_urls, wheeldir, extra_index_urls=None, **kw):
+            captured.update(index=list(index_urls), extra=list(extra_index_urls or []), find=list(find_links))
+            raise Stop()
+
+        orig = C.build_repo
+        C.build_repo = fake_build_repo
+        out = {}
+        try:
+            with contextlib.redirect_stderr(io.StringIO()), contextlib.redirect_stdout(io.StringIO()):
+                try:
+                    C.compile_main(args)
+                except Stop:
+                    out = dict(captured)
+                except SystemExit as ex:
+                    out = {"exit": ex.code}
+                except Exception as ex:
+                    out = {"error": type(ex).__name__}
+        finally:
+            C.build_repo = orig
+            shutil.rmtree(d, ignore_errors=True)
+        return out
+
+    def _file_lists(self, case):
+        out = {"find": [], "index": [], "extra": []}
+        for lines in case["files"]:
+            for kind, v in lines:
+                out[kind].append(v)
+        return out
+
+    def model_request(self, case, r):
+        fl = self._file_lists(case)
+        return {"op": "batch", "reqs": [{"op": "merge-locations", "cmd": case["cmd"][k], "file": fl[k]} for k in ("find", "index", "extra")]}
+
+    def compare(self, case, r, m):
+        if "find" not in r:
+            return False
+        has_opts = any(lines for lines in case["files"])
+        want = dict(zip(("find", "index", "extra"), m))
+        if not has_opts:
+            # no option line anywhere: the command-line lists are passed on untouched (repetitions included)
+            want = {k: list(case["cmd"][k]) for k in want}
+        return all(r[k] == want[k] for k in want)
+
+    def flags(self, case, r):
+        fl = []
+        fll = self._file_lists(case)
+        if any(fll.values()):
+            fl.append("file-declares-locations")
+        if any(case["cmd"].values()) and any(fll.values()):
+            fl.append("command-line-and-file")
+        merged = case["cmd"]["find"] + fll["find"]
+        if len(set(merged)) < len(merged):
+            fl.append("location-mentioned-twice")
+        if list(dict.fromkeys(merged)) != sorted(set(merged)):
+            fl.append("listed-order-not-alphabetical")
+        return fl
+
+    def oracle(self, case, r):
+        if "find" not in r:
+            return [("C04/cli-rejects-locations", r)]
+        fll = self._file_lists(case)
+        fails = []
+        for k in ("find", "index", "extra"):
+            want = list(dict.fromkeys(case["cmd"][k] + fll[k]))
+            got = list(dict.fromkeys(r[k]))
+            if got != want:
+                kind = "order" if sorted(got) == sorted(want) else "set"
+                fails.append(("C04/locations-not-in-listed-order/%s/%s" % (k, kind), {"listed": want, "handed-to-build_repo": r[k]}))
+        return fails
+
+    def shrink(self, case):
+        for k in ("find", "index", "extra"):
+            for i in range(len(case["cmd"][k])):
+                yield dict(case, cmd=dict(case["cmd"], **{k: case["cmd"][k][:i] + case["cmd"][k][i + 1:]}))
+        for fi, lines in enumerate(case["files"]):
+            for i in range(len(lines)):
+                nf = [list(x) for x in case["files"]]
+                del nf[fi][i]
+                yield dict(case, files=nf)
+
+
 def streams():
-    return [StackStream(), ReleaseFallThrough()]
+    return [StackStream(), ReleaseFallThrough(), CliLocationOrder()]
